@@ -31,7 +31,7 @@ func init() {
 	}
 	Registry["C15"] = &Check{
 		Scenarios: c15Scenarios,
-		Rule: "Server.Serve with three connections plus a fourth offered after the fault; accept script: every placement of <=2 temporary accept errors among the offers (temporary errors alternate between temporary-only, like EMFILE, and temporary-and-timeout, like EAGAIN); connection A suffers one fault from {handler panic (raised in the handler itself or, at even positions, 80 calls below it), undecodable header with trailing bytes, disconnect in the middle of a message} at every position 1..3 of its three-message sequence; connections B, C and D exchange two request/answer pairs each with bodies that name their connection (the handler checks that the body belongs to the header); after A's fault the application registers a further handler on the running ServeMux, and the first handler of D also writes to A's (failed) diam.Conn, which must simply return an error; C and D are offered only after that, and C's first message is held inside its body until D has been served completely (so a read buffer shared across connections is overwritten); every ordering of environment steps, timers and blocking hand-overs at preemption bound 0 (quick: each accept placement with three of the nine fault/position pairs; thorough: the full product, and preemption bound 1 for the placement without accept errors); back-off sleeps run on the virtual clock. Four scenarios put 9, 10, 12 and 40 consecutive temporary accept errors between two connections. One scenario accepts a connection as TLS whose peer sends 7 bytes of a handshake record and falls silent (later connections must be accepted and served). One scenario accepts a connection as TLS while its peer sends plain Diameter (the handshake fails: the transport must be closed, the other connection served). Three scenarios (bound 1 / 2) put the fault {panic, undecodable header, cut} on a connection whose peer has stopped reading while the handler of a healthy connection is blocked inside a Write to it: the faulty transport is closed all the same, the blocked handler is released with an error and its connection goes on being served. Five scenarios (bound 0 / 1) make the faulty connection a multistream (SCTP) association {handler panic, undecodable header, association ending inside a header / inside a body by EOF / by reset}. A runtime fatal error (unlock of an unlocked mutex) is modelled as unrecoverable and reported. Three further scenarios (preemption bound 1, thorough 2) put the fault at the third message of a connection whose first handler has requested CloseNotify, so that the notifier goroutine is running when the connection fails.",
+		Rule: "Server.Serve with three connections plus a fourth offered after the fault; accept script: every placement of <=2 temporary accept errors among the offers (temporary errors alternate between temporary-only, like EMFILE, and temporary-and-timeout, like EAGAIN); connection A suffers one fault from {handler panic (raised in the handler itself or, at even positions, 80 calls below it), undecodable header with trailing bytes, disconnect in the middle of a message} at every position 1..3 of its three-message sequence; connections B, C and D exchange two request/answer pairs each with bodies that name their connection (the handler checks that the body belongs to the header); after A's fault the application registers a further handler on the running ServeMux, and the first handler of D also writes to A's (failed) diam.Conn, which must simply return an error; C and D are offered only after that, and C's first message is held inside its body until D has been served completely (so a read buffer shared across connections is overwritten); every ordering of environment steps, timers and blocking hand-overs at preemption bound 0 (quick: each accept placement with three of the nine fault/position pairs; thorough: the full product, and preemption bound 1 for the placement without accept errors); back-off sleeps run on the virtual clock. Four scenarios put 9, 10, 12 and 40 consecutive temporary accept errors between two connections. One scenario accepts a connection as TLS whose peer sends 7 bytes of a handshake record and falls silent (later connections must be accepted and served). One scenario accepts a connection as TLS while its peer sends plain Diameter (the handshake fails: the transport must be closed, the other connection served). Three scenarios (bound 1 / 2) put the fault {panic, undecodable header, cut} on a connection whose peer has stopped reading while the handler of a healthy connection is blocked inside a Write to it: the faulty transport is closed all the same, the blocked handler is released with an error and its connection goes on being served. Two scenarios use an application Handler that implements ErrorReporter itself and panics in Error (undecodable input / cut message on A). Five scenarios (bound 0 / 1) make the faulty connection a multistream (SCTP) association {handler panic, undecodable header, association ending inside a header / inside a body by EOF / by reset}. A runtime fatal error (unlock of an unlocked mutex) is modelled as unrecoverable and reported. Three further scenarios (preemption bound 1, thorough 2) put the fault at the third message of a connection whose first handler has requested CloseNotify, so that the notifier goroutine is running when the connection fails.",
 		Assume: []string{"data-race freedom between visible operations (audited separately with -race)"},
 		QuickBudget: 150, ThoroughBudget: 2400,
 	}
@@ -564,6 +564,13 @@ func c15Scenarios(tier string) []*Scenario {
 		}
 		out = append(out, c15FaultWhileWriteStuck(fault, b))
 	}
+	for _, fault := range []string{"garbage", "cut"} {
+		b := 0
+		if tier == "thorough" {
+			b = 1
+		}
+		out = append(out, c15ReporterPanics(fault, b))
+	}
 	for _, fault := range []string{"panic", "garbage", "cut-header", "cut-body", "reset-body"} {
 		b := 0
 		if tier == "thorough" {
@@ -1072,4 +1079,99 @@ func c08RelayBlockedMulti(raw bool, bound int) *Scenario {
 	}
 	return &Scenario{Name: fmt.Sprintf("dispatch/relay-to-a-multistream-peer-that-does-not-read/raw-write=%v", raw), Body: body, Check: check, Bound: bound, Horizon: 10 * time.Second,
 		Outcome: func(s *vs.Sched) string { return fmt.Sprint(c08rb.handledB) }}
+}
+
+// c15ReporterPanics: the server's Handler is an application type that implements ErrorReporter
+// itself, and its Error method panics on the report of a read error (it dereferences the report's
+// Message, which is nil for errors raised by the read loop). That is a handler panic like any
+// other: connection A is closed, B goes on being served, a later connection C is accepted.
+type c15PanickyHandler struct {
+	mux     *diam.ServeMux
+	reports int
+}
+
+func (h *c15PanickyHandler) ServeDIAM(c diam.Conn, m *diam.Message) { h.mux.ServeDIAM(c, m) }
+func (h *c15PanickyHandler) Error(er *diam.ErrorReport) {
+	h.reports++
+	vs.Event("application error reporter called; it dereferences the report's message")
+	_ = er.Message.Header.CommandCode // nil Message: panics
+}
+func (h *c15PanickyHandler) ErrorReports() *vs.Chan[*diam.ErrorReport] { return nil } // the instrumented build declares channels as vs.Chan
+
+var c15rp struct {
+	a, b, c *vnet.Conn
+	h       *c15PanickyHandler
+	served  bool
+}
+
+func c15ReporterPanics(fault string, bound int) *Scenario {
+	body := func() {
+		st := &c15rp
+		st.served = false
+		a, b, c := vnet.NewConn("A"), vnet.NewConn("B"), vnet.NewConn("C")
+		a.Pieces, b.Pieces, c.Pieces = 1, 1, 1
+		st.a, st.b, st.c = a, b, c
+		lis := vnet.NewListener()
+		mux := diam.NewServeMux()
+		mux.HandleFunc("ALL", func(cn diam.Conn, m *diam.Message) {
+			ans := m.Answer(2001)
+			ans.Header.HopByHopID, ans.Header.EndToEndID = m.Header.HopByHopID, m.Header.EndToEndID
+			ans.WriteTo(cn)
+		})
+		st.h = &c15PanickyHandler{mux: mux}
+		srv := &diam.Server{Handler: st.h, Dict: dict.Default}
+		lis.Offer(vnet.AcceptItem{Conn: a})
+		lis.Offer(vnet.AcceptItem{Conn: b})
+		vs.GoNamed("serve", false, func() { srv.Serve(lis); st.served = true })
+		vs.GoNamed("peerA", true, func() {
+			a.Deliver(srvReq(0, 0))
+			vs.BlockObj("wait-A-answered", a, func() bool { return len(a.Out) > 0 || a.Closed })
+			switch fault {
+			case "garbage":
+				bad := make([]byte, 20)
+				bad[0], bad[3] = 1, 60
+				bad[5], bad[6], bad[7] = 0xff, 0xff, 0xfe
+				a.Deliver(append(bad, ghost40(1)...))
+			case "cut":
+				m := srvReq(0, 1)
+				a.Deliver(m[:len(m)-7])
+				a.PeerEOF()
+			}
+		})
+		vs.GoNamed("peerB", true, func() {
+			b.Deliver(srvReq(1, 0))
+			vs.BlockObj("wait-A-gone", a, func() bool { return a.Closed })
+			b.Deliver(srvReq(1, 1))
+			c.Deliver(srvReq(2, 0))
+			lis.Offer(vnet.AcceptItem{Conn: c})
+		})
+	}
+	check := func(s *vs.Sched) string {
+		st := &c15rp
+		var v []string
+		for _, p := range s.Panics() {
+			v = append(v, "panic escaped (an unrecovered panic in a library goroutine ends the process): "+p)
+		}
+		if !st.a.Closed {
+			v = append(v, "the faulty connection's transport was not closed")
+		}
+		if fault == "garbage" && st.h.reports == 0 {
+			v = append(v, "undecodable input: no error report was offered to the handler's ErrorReporter")
+		}
+		if got := fmt.Sprint(answersOn(st.b)); got != "[1 2]" {
+			v = append(v, "healthy connection B received answers "+got+", expected [1 2]")
+		}
+		if got := fmt.Sprint(answersOn(st.c)); got != "[1]" {
+			v = append(v, "connection C, offered after the fault, received answers "+got+", expected [1]")
+		}
+		if st.b.Closed || st.c.Closed {
+			v = append(v, "a healthy connection was closed")
+		}
+		if st.served {
+			v = append(v, "Serve returned")
+		}
+		return strings.Join(v, " | ")
+	}
+	return &Scenario{Name: "faults/error-reporter-of-the-handler-panics/" + fault, Body: body, Check: check, Bound: bound, Horizon: 10 * time.Second,
+		Outcome: func(s *vs.Sched) string { return fmt.Sprintf("reports=%d B=%v", c15rp.h.reports, answersOn(c15rp.b)) }}
 }
